@@ -697,6 +697,9 @@ func (fr *Frame) appendBuiltin(c *ssa.CallCommon, args []SV, st *State, g string
 			st.heap[k] = h
 			return SV{t: res, typ: c.Args[0].Type()}
 		}
+		if fr.appendStructElems(s, more, len(args) > 1, res, newLen, st, et) { // ext_crypto.go: slice of flat structs
+			return SV{t: res, typ: c.Args[0].Type()}
+		}
 		fc.unsupported("append to slice of " + et.String())
 		return SV{t: res, typ: c.Args[0].Type()}
 	}
@@ -791,6 +794,12 @@ func (fr *Frame) copyBuiltin(c *ssa.CallCommon, args []SV, st *State, g string) 
 		// the copied window holds the same byte string as the source window (see builtin seq)
 		fc.eng.declareUF(fc, "bseq", []string{"(Array Int Int)", "Int", "Int"}, "Int")
 		fc.assume("true", eq(app("bseq", nb, soff(dst.t), n), app("bseq", app("select", heap, sarr(src.t)), soff(src.t), n)))
+		// ... and every window of the destination block that is disjoint from the written one holds the byte string it held
+		// before (bseq is a function of the content of the window; added for C13: two copies into the halves of one array)
+		if fc.usesFact("blockframe") { // opt-in (`uses blockframe`), see ext_crypto.go
+			fc.emit(fmt.Sprintf("(assert (forall ((wo Int) (wn Int)) (! (=> (and (>= wn 0) (or (<= (+ wo wn) %s) (>= wo (+ %s %s)))) (= (bseq %s wo wn) (bseq %s wo wn))) :pattern ((bseq %s wo wn)))))",
+				soff(dst.t), soff(dst.t), n, nb, oldBlk, nb))
+		}
 	}
 	if _, used := fc.ufs["kvval"]; used && fc.tc.sortOf(et) == "Int" && tc.sortOf(src.typ) != "Str" {
 		// T-KV: value ids are functions of the content, and copy makes dst[:n] and src[:n] equal byte strings
